@@ -144,7 +144,7 @@ func init() {
 		}
 		r := NewRng(c.seed)
 		for i := 0; i < c.n; i++ {
-			run(fmt.Sprintf("lmrace %d %d", 2+r.Intn(3), 1500))
+			run(fmt.Sprintf("lmrace %d %d", 2+r.Intn(3), 20000))
 		}
 		return nil
 	}
